@@ -595,18 +595,23 @@ namespace Pistache::Tcp
         while (this->notifier.tryRead())
             ;
 
-        // The request is taken out first: as soon as it is settled its owner may ask again,
-        // which writes loadRequest_ from the owner's thread
-        auto request = std::move(loadRequest_);
-        loadRequest_.clear();
+        // The requests are taken out first: as soon as one is settled its owner may ask again
+        std::vector<Async::Deferred<rusage>> requests;
+        {
+            Guard guard(loadLock);
+            requests.swap(loadRequests_);
+        }
 
         rusage now;
 
         auto res = getrusage(RUSAGE_THREAD, &now);
-        if (res == -1)
-            request.reject(std::runtime_error("Could not compute usage"));
-        else
-            request.resolve(now);
+        for (auto& request : requests)
+        {
+            if (res == -1)
+                request.reject(std::runtime_error("Could not compute usage"));
+            else
+                request.resolve(now);
+        }
     }
 
     void Transport::handleTimer(TimerEntry entry)
